@@ -46,6 +46,12 @@ pub fn check_program(ctx: &mut Ctx, h: &H, src: &str, tag: &str) {
             // the semantics itself gets stuck: that is C01's subject (or an ill-typed program)
             ctx.count("reference:stuck(C01)");
         }
+        // gram gets stuck although the semantics prescribes a value: for hole-free programs that is
+        // this property's business as well (no value is produced); with holes it is left to C01,
+        // where the recorded findings about holes are told apart
+        (Ok(rv), Run::Stuck { class, term, .. }) if *class != StuckClass::DivByZero && !has_source_holes(h) => {
+            viol(ctx, "stuck-where-a-value-is-prescribed", &format!("the semantics gives `{}` but gram's evaluation is stuck on {term}", crate::reval::head(rv)), src);
+        }
         (_, Run::Stuck { class, .. }) if *class != StuckClass::DivByZero => ctx.count("gram-stuck(C01)"),
         (Ok(rv), Run::Value { value, text, steps }) => {
             ctx.nontrivial(hash_str(src));
@@ -66,7 +72,25 @@ pub fn check_program(ctx: &mut Ctx, h: &H, src: &str, tag: &str) {
                     if let (Ok(pe), true) = (resolve(h, &[]), !has_source_holes(h)) {
                         match (rcore_eval_closed(&nbe, &pe), rcore_eval_closed(&nbe, value)) {
                             (Ok(a), Ok(b)) => match nbe.conv(&a, &b) {
-                                Ok(true) => ctx.count("compared:function-by-conversion"),
+                                Ok(true) => {
+                                    ctx.count("compared:function-by-conversion");
+                                    // what `gram run` prints is the text of that value: read back, it
+                                    // must denote the same function (texts that do not read back at
+                                    // all are C16's subject)
+                                    let back = crate::fw::guard(|| {
+                                        let toks = crate::tokenizer::tokenize(None, text).ok()?;
+                                        let t2 = crate::parser::parse(None, text, &toks[..], &[]).ok()?;
+                                        Some(crate::eterm::mirror(&t2))
+                                    });
+                                    match back {
+                                        Ok(Some(e2)) if !e2.has_hole() => match rcore_eval_closed(&nbe, &e2).map(|c| nbe.conv(&b, &c)) {
+                                            Ok(Ok(true)) => ctx.count("printed-function-value-reads-back-equal"),
+                                            Ok(Ok(false)) => viol(ctx, "printed-function-value-denotes-another-function", &format!("the printed value `{}` reads back as a function that is not definitionally equal to the value", clip(text, 300)), src),
+                                            _ => ctx.count("printed-function-value:not-compared"),
+                                        },
+                                        _ => ctx.count("printed-function-value:does-not-read-back(C16)"),
+                                    }
+                                }
                                 Ok(false) => viol(ctx, "wrong-function-value", &format!("the value `{}` is not definitionally equal to the program", clip(text, 300)), src),
                                 Err(_) => ctx.inconclusive("reference-fuel"),
                             },
